@@ -34,7 +34,7 @@ class Oracle:
     def __init__(self, frequency, curve, search_range):
         f = np.asarray(frequency, dtype=float)
         y = np.asarray(curve, dtype=float)
-        lo, hi = search_range
+        lo, hi = (None if v is None else float(v) for v in search_range)
         self.f, self.y, self.lo, self.hi = f, y, lo, hi
         self.full = local_maxima(y)
         # admissible: local maxima of the full curve strictly inside the range (any plateau sample)
